@@ -368,6 +368,10 @@ func genC07(c *Ctx) {
 	//    and invalid payload lengths): hashing stays linear in the cells
 	c07ExoticSharing(c, r.Fork(0xc07c))
 	c07Phase("sharing-exotic")
+	// 8b. one exotic cell of every type / mask / payload length (shorter than
+	//     the mask announces, exact, longer) at every position of a tiny bag
+	c07ShortExotic(c, r.Fork(0xc081))
+	c07Phase("short-exotic")
 	// 9. trees around and beyond the hasher's depth limit, chains and deep
 	//    branches under a shallow root (a reused Hasher must survive the error)
 	c07Deep(c, r.Fork(0xc07d))
